@@ -494,10 +494,52 @@ func (q *seq) line(res string, sn snap) string {
 		fm = append(fm, strconv.Itoa(i))
 	}
 	h := q.e.k.GetLastObservedBlockHeight(q.ctx)
-	return fmt.Sprintf("%s next=%d,%d,%d pool=[%s] batches=[%s] calls=[%s] pend=[%s] obs=%d,%d,%d bal=%s erc=%s rel=[%s] frommsg=[%s]", res,
+	// the voting layer (round 5): the stored attestations of the last observed and of later event nonces — event nonce, voters
+	// (oracle indices) in vote order, observed — and the last event nonce of every oracle
+	lastObs := q.e.k.GetLastObservedEventNonce(q.ctx)
+	type attRec struct {
+		key uint64
+		s   string
+	}
+	var atts []attRec
+	q.e.k.IterateAttestationAndClaim(q.ctx, func(att *types.Attestation, claim types.ExternalClaim) bool {
+		if claim.GetEventNonce() < lastObs {
+			return false
+		}
+		var vs []string
+		first := uint64(0)
+		for i, v := range att.Votes {
+			idx := -1
+			for o, oa := range q.e.oracles {
+				if oa.String() == v {
+					idx = o
+				}
+			}
+			if i == 0 && idx >= 0 {
+				first = uint64(idx)
+			}
+			vs = append(vs, strconv.Itoa(idx))
+		}
+		ob := 0
+		if att.Observed {
+			ob = 1
+		}
+		atts = append(atts, attRec{claim.GetEventNonce()*1000 + first, fmt.Sprintf("%d:%s:%d", claim.GetEventNonce(), strings.Join(vs, ","), ob)})
+		return false
+	})
+	sort.SliceStable(atts, func(i, j int) bool { return atts[i].key < atts[j].key })
+	var attS, lastS []string
+	for _, a := range atts {
+		attS = append(attS, a.s)
+	}
+	for _, oa := range q.e.oracles {
+		lastS = append(lastS, fmt.Sprint(q.e.k.GetLastEventNonceByOracle(q.ctx, oa)))
+	}
+	return fmt.Sprintf("%s next=%d,%d,%d pool=[%s] batches=[%s] calls=[%s] pend=[%s] obs=%d,%d,%d bal=%s erc=%s rel=[%s] frommsg=[%s] atts=[%s] last=%s", res,
 		sn.next[0], sn.next[1], sn.next[2],
 		strings.Join(pool, ";"), strings.Join(batches, ";"), strings.Join(calls, ";"), strings.Join(pend, ";"),
-		h.ExternalBlockHeight, h.BlockHeight, q.e.k.GetLastObservedEventNonce(q.ctx), strings.Join(bal, ","), strings.Join(erc, ","), strings.Join(rel, ","), strings.Join(fm, ","))
+		h.ExternalBlockHeight, h.BlockHeight, lastObs, strings.Join(bal, ","), strings.Join(erc, ","), strings.Join(rel, ","), strings.Join(fm, ","),
+		strings.Join(attS, ";"), strings.Join(lastS, ","))
 }
 
 // deliver runs f in a cache context committed only on success (as a transaction); returns ok / err / panic.
